@@ -1,9 +1,11 @@
 ------------------------------- MODULE MC_Sim -------------------------------
 EXTENDS Sim
-ZsA == {-1, 0, 1, 2}
+ZsA == {-3, -1, 0, 1, 2}        \* -3: the Euler step of the local-volatility scheme goes negative (1 + z/2 < 0)
 ZsB == {-1, 1}
 NsZero == {0}
 NsJump == {0, 1, 4}
 Diffusions == {"brownian", "gbm", "vasicek", "localvol_const", "localvol_lin"}
 Merton == {"merton"}
+Kou == {"kou"}
+NsKou == {0, 1, 3}
 =============================================================================
